@@ -93,6 +93,62 @@ fn run_reader(bytes: &[u8], free: &[(u64, u64)], fault: Option<usize>, chunks: &
     }
 }
 
+/// Both iterators of every cloud driven step by step on a device with one injected error: the next() call during
+/// which the device reports the error must not deliver a point. Returns the number of device operations used.
+fn run_reader_steps(bytes: &[u8], fault: Option<usize>) -> Result<usize, String> {
+    let dev = MemDev::with_data(bytes.to_vec());
+    dev.st.borrow_mut().fault_at = fault.map(|k| (k, kind_for(k)));
+    let h = dev.handle();
+    let r = guard(|| -> Result<(), String> {
+        let mut rd = match E57Reader::new(dev) {
+            Ok(r) => r,
+            Err(_) => return Ok(()),
+        };
+        for (ci, pc) in rd.pointclouds().iter().enumerate() {
+            for simple in [false, true] {
+                let mut step = 0u64;
+                if simple {
+                    let Ok(mut it) = rd.pointcloud_simple(pc) else { continue };
+                    loop {
+                        let before = h.fault_fired();
+                        let item = it.next();
+                        if !before && h.fault_fired() && matches!(item, Some(Ok(_))) {
+                            return Err(format!("cloud {ci}: simple iterator step {step} delivered a point although the device reported an error during this very call"));
+                        }
+                        step += 1;
+                        if !matches!(item, Some(Ok(_))) || step > pc.records + 2 {
+                            break;
+                        }
+                    }
+                } else {
+                    let Ok(mut it) = rd.pointcloud_raw(pc) else { continue };
+                    loop {
+                        let before = h.fault_fired();
+                        let item = it.next();
+                        if !before && h.fault_fired() && matches!(item, Some(Ok(_))) {
+                            return Err(format!("cloud {ci}: raw iterator step {step} delivered a point although the device reported an error during this very call"));
+                        }
+                        step += 1;
+                        if !matches!(item, Some(Ok(_))) || step > pc.records + 2 {
+                            break;
+                        }
+                    }
+                }
+                if h.fault_fired() {
+                    return Ok(());
+                }
+            }
+        }
+        Ok(())
+    });
+    let n = h.st.borrow().ops;
+    match r {
+        Err(p) => Err(format!("reader panicked: {p}")),
+        Ok(Err(e)) => Err(e),
+        Ok(Ok(())) => Ok(n),
+    }
+}
+
 impl Check for C16 {
     type Case = Case;
     const ID: &'static str = "C16";
@@ -105,7 +161,7 @@ impl Check for C16 {
          Other, InvalidInput, InvalidData, UnexpectedEof, PermissionDenied, BrokenPipe, TimedOut, NotFound, WriteZero): the public call \
          during which the fault fired must return Err (iterators Some(Err)), never panic, never report success; a caller stops at the first Err; \
          if top-level finalize reports success the device equals the fault-free file. Faults firing only inside Drop have no call to report to and \
-         are counted, not asserted. A caller that gives up adding data after the first failing call but still calls the top-level finalize (every fault position, also on a short-transfer device): a reported success means a readable file of whole pages. Every device operation interrupted once (ErrorKind::Interrupted): a call fails or all succeed and the file is the fault-free one. Short transfers: the same programs on a device that serves reads and writes in generated chunk sizes (1..) must \
+         are counted, not asserted. A caller that gives up adding data after the first failing call but still calls the top-level finalize (every fault position, also on a short-transfer device): a reported success means a readable file of whole pages. Every device operation interrupted once (ErrorKind::Interrupted): a call fails or all succeed and the file is the fault-free one. Both iterators are also driven step by step: the next() call during which the device fails must not deliver a point. Short transfers: the same programs on a device that serves reads and writes in generated chunk sizes (1..) must \
          succeed with a byte-identical file and identical read results. `evaluations` counts programs, `executions_of_code_under_test` counts \
          faulted/chunked executions. Non-trivial: program with >= 40 fault positions in both writer and reader, or a 1-byte chunk schedule."
             .into()
@@ -261,6 +317,16 @@ impl Check for C16 {
                 v.fail(format!("device fault at read-side operation {k}: {e}"));
                 v.execs = execs;
                 return v;
+            }
+        }
+        if let Ok(n) = run_reader_steps(&good, None) {
+            for k in 0..n {
+                execs += 1;
+                if let Err(e) = run_reader_steps(&good, Some(k)) {
+                    v.fail(format!("device fault at read-side operation {k} (iterators step by step): {e}"));
+                    v.execs = execs;
+                    return v;
+                }
             }
         }
         if wops >= 40 && rops >= 40 {
